@@ -10,6 +10,7 @@
 #include "report.hpp"
 #include "C08_half_ref.hpp"
 
+#include <cfenv>
 #include <cmath>
 #include <csignal>
 #include <cstdint>
@@ -37,6 +38,22 @@
 #else
 #define C08_BUILD C08_PATH
 #endif
+
+// dynamic rounding mode owned by the harness (--fenv NAME): set once before the shard, restored at the end.
+// The expected bits never depend on it; signatures, messages, replay arguments and counters carry it.
+static std::string g_sfx;         // "" or "[FE_UPWARD]"
+static std::string g_fenv_name;   // "" or "FE_UPWARD"
+static int g_fenv_mode = -1;
+static std::string BLD() { return std::string(C08_BUILD) + (g_fenv_name.empty() ? "" : " " + g_fenv_name); }
+static std::vector<std::string> RP(const std::string& fn, std::initializer_list<std::string> ops = {})
+{
+    std::vector<std::string> v;
+    if (!g_fenv_name.empty()) { v.push_back("--fenv"); v.push_back(g_fenv_name); }
+    v.push_back("--one");
+    v.push_back(fn);
+    for (const std::string& o : ops) v.push_back(o);
+    return v;
+}
 
 typedef half_float::half H;
 static_assert(sizeof(H) == 2, "half is expected to be its 16-bit representation");
@@ -94,11 +111,11 @@ static void crash_hook(const char* signame)
     const char* fn = g_fn;
     const int n = g_nargs;
     const bool isf = std::strncmp(fn, "float2half", 10) == 0;
-    std::vector<std::string> rp = {"--one", fn, hx(g_a, isf ? 8 : 4)};
+    std::vector<std::string> rp = RP(fn, {hx(g_a, isf ? 8 : 4)});
     std::string ops = rp[2];
     if (n >= 2) { rp.push_back(hx(g_b, 4)); ops += " " + rp.back(); }
     if (n >= 3) { rp.push_back(hx(g_c, 4)); ops += " " + rp.back(); }
-    vf::violation(std::string("C08/") + fn + "/crash/" + signame, std::string("[") + C08_BUILD + "] " + fn + " died with " + signame + " on operands " + ops + " (bit patterns)", rp);
+    vf::violation(std::string("C08/") + fn + g_sfx + "/crash/" + signame, std::string("[") + BLD() + "] " + fn + " died with " + signame + " on operands " + ops + " (bit patterns)", rp);
 }
 static void install_handlers()
 {
@@ -170,6 +187,7 @@ static void flush_streams()
 }
 
 // ------------------------------------------------------------------ counters
+static long long g_hash_eq = 0;
 static long long g_eval = 0, g_nt = 0, g_ties = 0, g_subres = 0, g_nearovf = 0, g_special = 0, g_exact0 = 0, g_info = 0;
 static bool g_verbose = false;   // --one: print the result
 
@@ -266,9 +284,9 @@ static __attribute__((noinline, cold)) void fail_half(const char* fn, const ops_
 {
     if (throttled(fn, ri_bits(ri, ops_bits(ops) | (href::is_nan16(expect) ? 4u : 0u) | (href::is_inf16(expect) ? 8u : 0u)), kind_code(expect, got))) return;
     std::string cls = round_class(ri, ops, expect);
-    std::string sig = std::string("C08/") + fn + "/" + cls + "/" + fail_kind(expect, got);
-    std::string msg = std::string("[") + C08_BUILD + "] " + fn + "(";
-    std::vector<std::string> rp = {"--one", fn};
+    std::string sig = std::string("C08/") + fn + g_sfx + "/" + cls + "/" + fail_kind(expect, got);
+    std::string msg = std::string("[") + BLD() + "] " + fn + "(";
+    std::vector<std::string> rp = RP(fn);
     for (size_t i = 0; i < ops.size(); ++i) { msg += (i ? ", " : "") + h2s(ops[i]); rp.push_back(hx(ops[i], 4)); }
     msg += ") returned " + h2s(got) + ", the correctly rounded binary16 result is " + h2s(expect) + " [" + cls + "]";
     vf::violation(sig, msg, rp);
@@ -283,10 +301,10 @@ static inline bool same_half(uint16_t expect, uint16_t got)
 static void asan_check(const char* fn)
 {
     if (!vf::take_asan()) return;
-    std::vector<std::string> rp = {"--one", fn, hx(g_a, 4)};
+    std::vector<std::string> rp = RP(fn, {hx(g_a, 4)});
     if (g_nargs > 1) rp.push_back(hx(g_b, 4));
     if (g_nargs > 2) rp.push_back(hx(g_c, 4));
-    vf::violation(std::string("C08/") + fn + "/asan/" + clsname(uint16_t(g_a)), std::string("AddressSanitizer report inside ") + fn + " on operands " + hx(g_a, 4) + " " + hx(g_b, 4) + " " + hx(g_c, 4), rp);
+    vf::violation(std::string("C08/") + fn + g_sfx + "/asan/" + clsname(uint16_t(g_a)), std::string("AddressSanitizer report inside ") + fn + " on operands " + hx(g_a, 4) + " " + hx(g_b, 4) + " " + hx(g_c, 4), rp);
 }
 #define ASAN_CHECK(fn) asan_check(fn)
 #else
@@ -378,12 +396,12 @@ static __attribute__((noinline, cold)) void fail_f2h(const char* fn, uint32_t u,
     if (fnan(u)) cls = "nan-operand";
     else if ((u & 0x7FFFFFFFu) == 0x7F800000u) cls = "inf-operand";
     else cls = round_class(ri, ops_t(), expect);
-    std::string sig = std::string("C08/") + fn + "." C08_PATH "/" + cls + "/" + fail_kind(expect, got);
+    std::string sig = std::string("C08/") + fn + "." C08_PATH + g_sfx + "/" + cls + "/" + fail_kind(expect, got);
     char v[64];
     std::snprintf(v, sizeof v, "%.9g", (double)mkf(u));
-    vf::violation(sig, std::string("[") + C08_BUILD + "] " + fn + "(float " + hx(u, 8) + " = " + v + ", " + fclass(u) + ") returned " + h2s(got) +
+    vf::violation(sig, std::string("[") + BLD() + "] " + fn + "(float " + hx(u, 8) + " = " + v + ", " + fclass(u) + ") returned " + h2s(got) +
                            ", round-to-nearest-even binary16 is " + h2s(expect) + " [" + cls + "]",
-                  {"--one", fn, hx(u, 8)});
+                  RP(fn, {hx(u, 8)}));
 }
 static inline void one_f2h(uint32_t u, bool count_nt)
 {
@@ -404,6 +422,55 @@ static inline void one_f2h(uint32_t u, bool count_nt)
     if (g_verbose)
         std::printf("@@{\"t\":\"res\",\"fn\":\"float2half\",\"v\":\"%04x\",\"expect\":\"%04x\"}\n@@{\"t\":\"res\",\"fn\":\"float2half_assign\",\"v\":\"%04x\"}\n", href::canon16(r1), e, href::canon16(r2));
 }
+// Fast form of the float sweep: the two entry points are separately compiled loops over a block (no inlining into the
+// judge, no common subexpression between constructor and assignment); the judge then runs over the block with its
+// digests and counters in registers. Produces exactly the digests and counters of calling one_f2h on every input.
+static const int FBLK = 512;
+NOINL static void impl_f2h_ctor_block(uint32_t u0, int n, uint16_t* out)
+{
+    for (int i = 0; i < n; ++i) { g_a = u0 + uint32_t(i); H h(mkf(u0 + uint32_t(i))); out[i] = bits(h); }
+}
+NOINL static void impl_f2h_assign_block(uint32_t u0, int n, uint16_t* out)
+{
+    for (int i = 0; i < n; ++i) { g_a = u0 + uint32_t(i); H h; h = mkf(u0 + uint32_t(i)); out[i] = bits(h); }
+}
+static void f2h_chunk_fast(uint32_t base)
+{
+    uint16_t r1[FBLK], r2[FBLK];
+    uint64_t d1 = g_st[S_F2H].dig, w1 = g_st[S_F2H].raw, d2 = g_st[S_F2H_ASSIGN].dig, w2 = g_st[S_F2H_ASSIGN].raw;
+    long long nt = 0, ties = 0, subres = 0, nearovf = 0, special = 0, exact0 = 0;
+    for (uint32_t off = 0; off < (1u << 24); off += FBLK)
+    {
+        const uint32_t u0 = base + off;
+        CUR("float2half");
+        impl_f2h_ctor_block(u0, FBLK, r1);
+        CUR("float2half_assign");
+        impl_f2h_assign_block(u0, FBLK, r2);
+        for (int i = 0; i < FBLK; ++i)
+        {
+            const uint32_t u = u0 + uint32_t(i);
+            rinfo ri;
+            const uint16_t e = href::from_f32_bits(u, &ri);
+            const bool nz_finite = (e & 0x7FFF) != 0 && (e & 0x7FFF) < 0x7C00;
+            nt += (ri.inexact && (nz_finite || ri.near_overflow));
+            ties += ri.tie;
+            subres += (ri.res_sub && ri.inexact);
+            nearovf += ri.near_overflow;
+            special += ri.special;
+            exact0 += ri.exact_zero;
+            if (__builtin_expect(!same_half(e, r1[i]), 0)) { g_a = u; fail_f2h("float2half", u, e, r1[i], ri); }
+            if (__builtin_expect(!same_half(e, r2[i]), 0)) { g_a = u; fail_f2h("float2half_assign", u, e, r2[i], ri); }
+            mix(d1, href::canon16(r1[i]));
+            mix(w1, r1[i]);
+            mix(d2, href::canon16(r2[i]));
+            mix(w2, r2[i]);
+        }
+    }
+    g_st[S_F2H].dig = d1; g_st[S_F2H].raw = w1; g_st[S_F2H].n += 1u << 24;
+    g_st[S_F2H_ASSIGN].dig = d2; g_st[S_F2H_ASSIGN].raw = w2; g_st[S_F2H_ASSIGN].n += 1u << 24;
+    g_eval += 2ll << 24;
+    g_nt += nt; g_ties += ties; g_subres += subres; g_nearovf += nearovf; g_special += special; g_exact0 += exact0;
+}
 static void mode_f2h(int shard, int nshard, bool samples)
 {
     g_nargs = 1;
@@ -413,7 +480,8 @@ static void mode_f2h(int shard, int nshard, bool samples)
         if (c % nshard != shard) continue;
         g_sub = c;
         uint32_t u = uint32_t(c) << 24;
-        for (uint32_t i = 0; i < (1u << 24); ++i, ++u) one_f2h(u, true);
+        if (g_dump_sid < 0) f2h_chunk_fast(u);
+        else for (uint32_t i = 0; i < (1u << 24); ++i, ++u) one_f2h(u, true);   // --dump / --nth: the generic path
         flush_streams();
         vf::stat("float_chunks_done", 1);
         if (samples && nsamp < 2)
@@ -435,13 +503,13 @@ static void mode_f2h(int shard, int nshard, bool samples)
 // ------------------------------------------------------------------ unary functions over all halves
 static __attribute__((noinline, cold)) void fail_bool(const char* fn, uint16_t a, const char* what, long long expect, long long got)
 {
-    vf::violation(std::string("C08/") + fn + "/" + bclass(a) + "/wrong-result",
-                  std::string("[") + C08_BUILD + "] " + fn + "(" + h2s(a) + ") returned " + vf::str(got) + ", expected " + vf::str(expect) + " (" + what + ")", {"--one", fn, hx(a, 4)});
+    vf::violation(std::string("C08/") + fn + g_sfx + "/" + bclass(a) + "/wrong-result",
+                  std::string("[") + BLD() + "] " + fn + "(" + h2s(a) + ") returned " + vf::str(got) + ", expected " + vf::str(expect) + " (" + what + ")", RP(fn, {hx(a, 4)}));
 }
 static __attribute__((noinline, cold)) void fail_conv(const char* fn, uint16_t a, uint64_t expect, uint64_t got, int digits)
 {
-    vf::violation(std::string("C08/") + fn + "." C08_PATH "/" + clsname(a) + "/" + (href::is_nan16(a) ? "not-nan" : "inexact-conversion"),
-                  std::string("[") + C08_BUILD + "] " + fn + "(" + h2s(a) + ") returned bits " + hx(got, digits) + ", the exact value has bits " + hx(expect, digits), {"--one", fn, hx(a, 4)});
+    vf::violation(std::string("C08/") + fn + "." C08_PATH + g_sfx + "/" + clsname(a) + "/" + (href::is_nan16(a) ? "not-nan" : "inexact-conversion"),
+                  std::string("[") + BLD() + "] " + fn + "(" + h2s(a) + ") returned bits " + hx(got, digits) + ", the exact value has bits " + hx(expect, digits), RP(fn, {hx(a, 4)}));
 }
 static void judge_h2f(const char* fn, int sid, uint16_t a, float got)
 {
@@ -472,13 +540,13 @@ static void judge_signop(const char* fn, int sid, const ops_t& ops, float fexpec
     else { e = href::from_f32_bits(fe); ok = (got == e); }
     if (!ok)
     {
-        std::string msg = std::string("[") + C08_BUILD + "] " + fn + "(";
-        std::vector<std::string> rp = {"--one", fn};
+        std::string msg = std::string("[") + BLD() + "] " + fn + "(";
+        std::vector<std::string> rp = RP(fn);
         for (size_t i = 0; i < ops.size(); ++i) { msg += (i ? ", " : "") + h2s(ops[i]); rp.push_back(hx(ops[i], 4)); }
         msg += ") returned " + h2s(got) + ", the float operation on the converted operands gives " + h2s(e) + (fnan(fe) ? " (a NaN with that sign bit)" : "");
         std::string cls = bclass(ops[0]);
         if (ops.size() > 1) cls += "," + bclass(ops[1]);
-        vf::violation(std::string("C08/") + fn + "/" + cls + "/" + (href::is_nan16(e) ? "nan-or-sign-lost" : fail_kind(e, got)), msg, rp);
+        vf::violation(std::string("C08/") + fn + g_sfx + "/" + cls + "/" + (href::is_nan16(e) ? "nan-or-sign-lost" : fail_kind(e, got)), msg, rp);
     }
     const uint16_t canon = href::is_nan16(got) ? uint16_t((got & 0x8000) | 0x7E00) : got;
     emit(sid, canon, got);
@@ -537,7 +605,7 @@ static void one_unary(uint16_t a, const char* only = nullptr)
         const size_t h1 = std::hash<H>()(h), h2 = std::hash<H>()(mk(a));
         ++g_eval;
         if (h1 != h2)
-            vf::violation(std::string("C08/hash/") + bclass(a) + "/not-a-function", std::string("[") + C08_BUILD + "] std::hash<half> of " + h2s(a) + " gave two different values", {"--one", "hash", hx(a, 4)});
+            vf::violation(std::string("C08/hash") + g_sfx + "/" + bclass(a) + "/not-a-function", std::string("[") + C08_BUILD + "] std::hash<half> of " + h2s(a) + " gave two different values", RP("hash", {hx(a, 4)}));
         emit1(S_HASH, h1);
         if (g_verbose) std::printf("@@{\"t\":\"res\",\"fn\":\"hash\",\"v\":\"%llx\"}\n", (unsigned long long)h1);
     }
@@ -557,14 +625,14 @@ static __attribute__((noinline, cold)) void fail_cmp(int i, uint16_t a, uint16_t
 {
     if (throttled(cmpname[i], unsigned(DEC[a].cls) | unsigned(DEC[a].neg) << 3 | unsigned(DEC[b].cls) << 4 | unsigned(DEC[b].neg) << 7, int(got))) return;
     static const char* sym[6] = {"==", "!=", "<", ">", "<=", ">="};
-    vf::violation(std::string("C08/") + cmpname[i] + "/" + bclass(a) + "," + bclass(b) + "/wrong-result",
-                  std::string("[") + C08_BUILD + "] " + h2s(a) + " " + sym[i] + " " + h2s(b) + " returned " + (got ? "true" : "false") + ", the float comparison of the converted operands says " + (expect ? "true" : "false"),
-                  {"--one", cmpname[i], hx(a, 4), hx(b, 4)});
+    vf::violation(std::string("C08/") + cmpname[i] + g_sfx + "/" + bclass(a) + "," + bclass(b) + "/wrong-result",
+                  std::string("[") + BLD() + "] " + h2s(a) + " " + sym[i] + " " + h2s(b) + " returned " + (got ? "true" : "false") + ", the float comparison of the converted operands says " + (expect ? "true" : "false"),
+                  RP(cmpname[i], {hx(a, 4), hx(b, 4)}));
 }
 static __attribute__((noinline, cold)) void fail_hash(uint16_t a, uint16_t b, size_t ha, size_t hb)
 {
-    vf::violation(std::string("C08/hash/") + bclass(a) + "," + bclass(b) + "/equal-values-hash-differently",
-                  std::string("[") + C08_BUILD + "] " + h2s(a) + " == " + h2s(b) + " but std::hash gives " + vf::str(ha) + " and " + vf::str(hb), {"--one", "hashpair", hx(a, 4), hx(b, 4)});
+    vf::violation(std::string("C08/hash") + g_sfx + "/" + bclass(a) + "," + bclass(b) + "/equal-values-hash-differently",
+                  std::string("[") + BLD() + "] " + h2s(a) + " == " + h2s(b) + " but std::hash gives " + vf::str(ha) + " and " + vf::str(hb), RP("hashpair", {hx(a, 4), hx(b, 4)}));
 }
 
 template <bool ARITH, bool REST>
@@ -625,7 +693,7 @@ static inline void one_pair(uint16_t a, uint16_t b, const dec& da, const dec& db
             CUR("hashpair");
             const size_t ha = std::hash<H>()(x), hb = std::hash<H>()(y);
             ++g_eval;
-            vf::stat("hash_pairs_with_equal_values", 1);
+            ++g_hash_eq;
             if (ha != hb) fail_hash(a, b, ha, hb);
         }
         CUR("copysign");
@@ -671,7 +739,7 @@ static void mode_pairs(char set, int shard, int nshard)
         for (uint16_t b : row) one_pair<true, true>(uint16_t(a), b, da, DEC[b]);
         pairs += (long long)row.size();
     }
-    vf::stat("operand_pairs_" C08_BUILD, pairs);
+    vf::stat(std::string("operand_pairs_" C08_BUILD) + g_sfx, pairs);
     flush_streams();
     if (shard == 0)
     {
@@ -712,7 +780,7 @@ static void mode_fma(const std::vector<uint16_t>& F, int shard, int nshard)
             n += (long long)F.size();
         }
     }
-    vf::stat("fma_alphabet_triples_" C08_BUILD, n);
+    vf::stat(std::string("fma_alphabet_triples_" C08_BUILD) + g_sfx, n);
     flush_streams();
     if (shard == 0)
     {
@@ -759,8 +827,8 @@ static void mode_fmad(char set, int shard, int nshard)
         }
         np += (long long)Y.size();
     }
-    vf::stat("fma_derived_triples_" C08_BUILD, n);
-    vf::stat("fma_derived_pairs_" C08_BUILD, np);
+    vf::stat(std::string("fma_derived_triples_" C08_BUILD) + g_sfx, n);
+    vf::stat(std::string("fma_derived_pairs_" C08_BUILD) + g_sfx, np);
     flush_streams();
 }
 
@@ -935,6 +1003,42 @@ static int run_one(int argc, char** argv, int i)
     return 0;
 }
 
+// ------------------------------------------------------------------ dynamic rounding mode
+static bool set_fenv(const char* name)
+{
+    const std::string n = name;
+    int mode;
+    if (n == "FE_UPWARD") mode = FE_UPWARD;
+    else if (n == "FE_DOWNWARD") mode = FE_DOWNWARD;
+    else if (n == "FE_TOWARDZERO") mode = FE_TOWARDZERO;
+    else if (n == "FE_TONEAREST") mode = FE_TONEAREST;
+    else { std::fprintf(stderr, "bad --fenv\n"); return false; }
+#ifndef C08_ROUNDING_MATH
+    if (mode != FE_TONEAREST) { std::fprintf(stderr, "--fenv needs the -frounding-math build\n"); return false; }
+#endif
+    g_fenv_name = n;
+    g_fenv_mode = mode;
+    g_sfx = "[" + n + "]";
+    if (std::fesetround(mode) != 0) { std::printf("@@{\"t\":\"referr\",\"v\":\"fesetround(%s) failed\"}\n", name); return true; }
+    // the mode must really be in effect for this process' float and double arithmetic (SSE MXCSR)
+    volatile float one = 1.0f, tiny = 1e-30f;
+    volatile double done_ = 1.0, dtiny = 1e-300;
+    const float up = one + tiny, dn = one - tiny;
+    const double dup = done_ + dtiny, ddn = done_ - dtiny;
+    const bool want_up = (mode == FE_UPWARD), want_dn = (mode == FE_DOWNWARD || mode == FE_TOWARDZERO);
+    if ((up > 1.0f) != want_up || (dn < 1.0f) != want_dn || (dup > 1.0) != want_up || (ddn < 1.0) != want_dn || std::fegetround() != mode)
+        std::printf("@@{\"t\":\"referr\",\"v\":\"rounding mode %s is not in effect after fesetround\"}\n", name);
+    return true;
+}
+static void end_fenv()
+{
+    if (g_fenv_mode < 0) return;
+    if (std::fegetround() != g_fenv_mode)
+        vf::note("observation (not judged): the dynamic rounding mode was " + g_fenv_name + " at the start of the shard and is different at its end - something in the library changed it");
+    std::fesetround(FE_TONEAREST);
+    vf::stat("shards_run_under_" + g_fenv_name, 1);
+}
+
 int main(int argc, char** argv)
 {
     init_tables();
@@ -968,25 +1072,38 @@ int main(int argc, char** argv)
             if (g_dump_sid < 0) { std::fprintf(stderr, "bad --nth\n"); return 3; }
             i += 3;
         }
-        else if (s == "--one") { int rc = run_one(argc, argv, i + 1); vf::done(); return rc; }
+        else if (s == "--fenv")
+        {
+            if (!set_fenv(argv[++i])) return 3;
+        }
+        else if (s == "--one")
+        {
+            int rc = run_one(argc, argv, i + 1);
+            end_fenv();
+            vf::done();
+            return rc;
+        }
     }
     if (mode == "f2h") mode_f2h(shard, nshard, shard == 0);
     else if (mode == "unary") mode_unary(set == "s" ? A4096 : A_all);
     else if (mode == "pairs") mode_pairs(set[0], shard, nshard);
     else if (mode == "fma") mode_fma(alpha == "t" ? F1024 : alpha == "s" ? F64 : A512, shard, nshard);
     else if (mode == "fmad") mode_fmad(alpha[0], shard, nshard);
+    else if ((mode == "info" || mode == "selftest") && g_fenv_mode >= 0 && g_fenv_mode != FE_TONEAREST) { std::fprintf(stderr, "double based modes run under FE_TONEAREST only\n"); return 3; }
     else if (mode == "info") mode_info();
     else if (mode == "selftest") mode_selftest();
     else { std::fprintf(stderr, "unknown mode\n"); return 3; }
     if (g_dump_file) std::fclose(g_dump_file);
-    vf::stat("evaluations_" C08_BUILD, g_eval);
-    vf::stat("nontrivial_" C08_BUILD, g_nt);
-    vf::stat("ties_" C08_BUILD, g_ties);
-    vf::stat("inexact_subnormal_results_" C08_BUILD, g_subres);
-    vf::stat("overflow_by_rounding_" C08_BUILD, g_nearovf);
-    vf::stat("special_case_results_" C08_BUILD, g_special);
-    vf::stat("exact_zero_results_" C08_BUILD, g_exact0);
-    if (g_fail_total) vf::stat("failing_results_" C08_BUILD, g_fail_total);
+    end_fenv();
+    vf::stat(std::string("evaluations_" C08_BUILD) + g_sfx, g_eval);
+    vf::stat(std::string("nontrivial_" C08_BUILD) + g_sfx, g_nt);
+    vf::stat(std::string("ties_" C08_BUILD) + g_sfx, g_ties);
+    vf::stat(std::string("inexact_subnormal_results_" C08_BUILD) + g_sfx, g_subres);
+    vf::stat(std::string("overflow_by_rounding_" C08_BUILD) + g_sfx, g_nearovf);
+    vf::stat(std::string("special_case_results_" C08_BUILD) + g_sfx, g_special);
+    vf::stat(std::string("exact_zero_results_" C08_BUILD) + g_sfx, g_exact0);
+    if (g_hash_eq) vf::stat(std::string("hash_pairs_with_equal_values_" C08_BUILD) + g_sfx, g_hash_eq);
+    if (g_fail_total) vf::stat(std::string("failing_results_" C08_BUILD) + g_sfx, g_fail_total);
     vf::done();
     return 0;
 }
